@@ -298,6 +298,13 @@ func (m *Monitors) adapterCall(ctx context.Context, proc, label string) {
 				fmt.Sprintf("the scheduler %s created a run (%s) under lease %s, not its current role lease: whichever instance holds the role triggers for the same tick", m.opTok, label, got))
 		}
 	}
+	// C11: "losing the role stops its work": once the lease of the calling process has been cancelled, the context of every later
+	// adapter call reports cancellation too - a context that carries the lease's values but not its cancellation
+	// (context.WithoutCancel, a context kept from before) lets the call go through without the role
+	if cur != nil && l == cur && cur.ctx != nil && cur.ctx.Err() != nil && ctx != nil && ctx.Err() == nil {
+		m.violate("C11", "role-loss-stops-work", "adapter-call-after-role-loss:"+strings.SplitN(label, "(", 2)[0],
+			fmt.Sprintf("process %s called %s after its role lease was cancelled, with a context that is still live", m.opTok, label))
+	}
 	// C07 lag: the handler's first store access for a delivery must not happen before the event has aged by the lag
 	// (checked also when the context is already cancelled: the handler was started all the same)
 	if idx, ok := m.inflight[proc]; ok && (label == "lookup") {
